@@ -77,3 +77,87 @@ Definition ep_roundtrip_images (v : pyval) : pyval :=
   end.
 
 Definition entries_docs2 : list (str * (pyval -> pyval)) := [ (lit "roundtrip_images", ep_roundtrip_images) ].
+
+(* ---------------- composeinfo *)
+From PM Require Import Model.ComposeInfo.
+
+(* tree description: [fields, paths, release, children {key: tree}] *)
+Fixpoint get_tree (fuel : nat) (v : pyval) : option vtree :=
+  match fuel with
+  | O => None
+  | S f =>
+      match v with
+      | PList [PDict fields; PDict paths; PDict rel; PDict children] =>
+          let ps := map (fun kv => (fst kv, match snd kv with PDict d => d | _ => [] end)) paths in
+          match (fix go (cs : list (str * pyval)) : option (list (str * vtree)) :=
+                   match cs with
+                   | [] => Some []
+                   | (k, c) :: cs' => match get_tree f c, go cs' with
+                                      | Some t, Some r => Some ((k, t) :: r)
+                                      | _, _ => None
+                                      end
+                   end) children with
+          | Some cs => Some (VT fields ps rel cs)
+          | None => None
+          end
+      | _ => None
+      end
+  end.
+
+Fixpoint put_tree (fuel : nat) (t : vtree) : pyval :=
+  match fuel with
+  | O => PNone
+  | S f =>
+      match t with
+      | VT fields paths rel children =>
+          PList [PDict fields; PDict (map (fun kv => (fst kv, PDict (snd kv))) paths); PDict rel;
+                 PDict (map (fun kv => (fst kv, put_tree f (snd kv))) children)]
+      end
+  end.
+
+Definition get_ci (v : pyval) : option ci :=
+  match v with
+  | PList [PDict compose; PDict release; PDict bp; PDict tops] =>
+      match (fix go (cs : list (str * pyval)) : option (list (str * vtree)) :=
+               match cs with
+               | [] => Some []
+               | (k, c) :: cs' => match get_tree 12 c, go cs' with
+                                  | Some t, Some r => Some ((k, t) :: r)
+                                  | _, _ => None
+                                  end
+               end) tops with
+      | Some vs => Some {| ci_compose := compose; ci_release := release; ci_base_product := bp; ci_variants := vs |}
+      | None => None
+      end
+  | _ => None
+  end.
+
+Definition put_ci (x : ci) : pyval :=
+  PList [PDict (ci_compose x); PDict (ci_release x); PDict (ci_base_product x);
+         PDict (map (fun kv => (fst kv, put_tree 12 (snd kv))) (ci_variants x))].
+
+Definition ep_roundtrip_ci (v : pyval) : pyval :=
+  match get_ci v with
+  | None => bad_input
+  | Some x =>
+      match dump_ci x with
+      | Err e => out_err e
+      | Ok d => out_ok (PList [PStr (print_json d);
+                               match load_ci d with
+                               | Err e => out_err e
+                               | Ok x2 => out_ok (PList [put_ci x2; out_result (fun d2 => PStr (print_json d2)) (dump_ci x2)])
+                               end])
+      end
+  end.
+
+Definition ep_load_ci (v : pyval) : pyval :=
+  out_result (fun x => PList [put_ci x; out_result (fun d2 => PStr (print_json d2)) (dump_ci x)]) (load_ci v).
+
+Definition ep_dump_ci (v : pyval) : pyval :=
+  match get_ci v with
+  | None => bad_input
+  | Some x => out_result (fun d => PStr (print_json d)) (dump_ci x)
+  end.
+
+Definition entries_ci : list (str * (pyval -> pyval)) :=
+  [ (lit "roundtrip_ci", ep_roundtrip_ci); (lit "load_ci", ep_load_ci); (lit "dump_ci", ep_dump_ci) ].
